@@ -13,7 +13,7 @@
 
    This is this property's OWN formula set (the C19 model covers only non-embedded 1-D/2-D
    grids). *)
-From Coq Require Import List ZArith QArith Qabs Bool Arith.
+From Coq Require Import List ZArith QArith Qabs Qminmax Bool Arith.
 Import ListNotations.
 
 Section Generic.
@@ -178,10 +178,18 @@ Definition is_rotation_q (M : qmat) : bool :=
   && Qeq_bool (qdot (qcol1 M) (qcol3 M)) 0 && Qeq_bool (qdot (qcol2 M) (qcol3 M)) 0
   && Qeq_bool (qdet M) 1.
 
-Definition close (a b : Q) : bool :=
-  Qle_bool (Qabs (a - b)) ((1 # 1000000000) * (1 + Qabs b)).
-Definition closev (a b : qvec) : bool :=
-  close (vx a) (vx b) && close (vy a) (vy b) && close (vz a) (vz b).
+(* comparison band: relative 1e-9 plus an absolute slack [sl] that accounts for the
+   precision of the INPUT: node coordinates of magnitude M are floats with spacing M * 2^-52,
+   so quantities computed from them carry absolute errors proportional to M (see [slack]) *)
+Definition close (sl a b : Q) : bool :=
+  Qle_bool (Qabs (a - b)) ((1 # 1000000000) * (1 + Qabs b) + sl).
+Definition closev (sl : Q) (a b : qvec) : bool :=
+  close sl (vx a) (vx b) && close sl (vy a) (vy b) && close sl (vz a) (vz b).
+Definition maxabs (l : list qvec) : Q :=
+  fold_right (fun p m => Qmax (Qmax (Qabs (vx p)) (Qabs (vy p))) (Qmax (Qabs (vz p)) m)) 0 l.
+(* 2^-40 * (largest moved coordinate) * (1 + largest original coordinate)^2 *)
+Definition slack (N N' : list qvec) : Q :=
+  Qred ((1 # 1099511627776) * maxabs N' * ((1 + maxabs N) * (1 + maxabs N))).
 
 Fixpoint all2 {A B} (f : A -> B -> bool) (a : list A) (b : list B) : bool :=
   match a, b with
@@ -196,14 +204,14 @@ Record geom := { g_area : list Q; g_fc : list qvec; g_fn : list qvec;
 
 (* The property, evaluated on the implementation's output before (G) and after (G') the
    motion x -> M x + t of the nodes (N -> N'). *)
-Definition moved_nodes_ok (M : qmat) (t : qvec) (N N' : list qvec) : bool :=
-  all2 (fun p p' => closev p' (vred (qmotion M t p))) N N'.
-Definition equivariant_ok (M : qmat) (t : qvec) (G G' : geom) : bool :=
-  all2 (fun a a' => close a' a) (g_area G) (g_area G')
-  && all2 (fun a a' => close a' a) (g_vol G) (g_vol G')
-  && all2 (fun p p' => closev p' (vred (qmotion M t p))) (g_fc G) (g_fc G')
-  && all2 (fun p p' => closev p' (vred (qmotion M t p))) (g_cc G) (g_cc G')
-  && all2 (fun n n' => closev n' (vred (qmapply M n))) (g_fn G) (g_fn G').
+Definition moved_nodes_ok (sl : Q) (M : qmat) (t : qvec) (N N' : list qvec) : bool :=
+  all2 (fun p p' => closev sl p' (vred (qmotion M t p))) N N'.
+Definition equivariant_ok (sl : Q) (M : qmat) (t : qvec) (G G' : geom) : bool :=
+  all2 (fun a a' => close sl a' a) (g_area G) (g_area G')
+  && all2 (fun a a' => close sl a' a) (g_vol G) (g_vol G')
+  && all2 (fun p p' => closev sl p' (vred (qmotion M t p))) (g_fc G) (g_fc G')
+  && all2 (fun p p' => closev sl p' (vred (qmotion M t p))) (g_cc G) (g_cc G')
+  && all2 (fun n n' => closev sl n' (vred (qmapply M n))) (g_fn G) (g_fn G').
 
 (* ------------------------------------------------------------------------------------ *)
 (* The 2-D formula set executed on a grid: nodes, faces (start node, end node), cell_faces
@@ -237,9 +245,9 @@ Definition plane_sum (g : grid2) : qvec :=
 
 (* [s] is a witness for |plane_sum| (the square root is not computable in Q): the harness
    supplies the implementation's total area; it is CHECKED here (s > 0, s^2 = |S|^2). *)
-Definition geometry2 (g : grid2) (s : Q) : option geom :=
+Definition geometry2 (sl : Q) (g : grid2) (s : Q) : option geom :=
   let S := plane_sum g in
-  if negb (Qle_bool s 0) && close (s * s) (qdot S S) then
+  if negb (Qle_bool s 0) && close sl (s * s) (qdot S S) then
     let n := vred (qvscale (1 / s) S) in
     let fs := map (fun f => edge_of g f 1%Z) (seq 0 (length (t_faces g))) in
     let cells := map (cell_edges g) (seq 0 (t_nc g)) in
@@ -253,15 +261,15 @@ Definition geometry2 (g : grid2) (s : Q) : option geom :=
   else None.
 
 (* model vs implementation (areas compared through their squares) *)
-Definition agree2 (g : grid2) (s : Q) (G : geom) : bool :=
-  match geometry2 g s with
+Definition agree2 (sl : Q) (g : grid2) (s : Q) (G : geom) : bool :=
+  match geometry2 sl g s with
   | None => false
   | Some m =>
-      all2 (fun a2 a => close (a * a) a2) (g_area m) (g_area G)
-      && all2 (fun p q => closev q p) (g_fc m) (g_fc G)
-      && all2 (fun p q => closev q p) (g_fn m) (g_fn G)
-      && all2 (fun a b => close b a) (g_vol m) (g_vol G)
-      && all2 (fun p q => closev q p) (g_cc m) (g_cc G)
+      all2 (fun a2 a => close sl (a * a) a2) (g_area m) (g_area G)
+      && all2 (fun p q => closev sl q p) (g_fc m) (g_fc G)
+      && all2 (fun p q => closev sl q p) (g_fn m) (g_fn G)
+      && all2 (fun a b => close sl b a) (g_vol m) (g_vol G)
+      && all2 (fun p q => closev sl q p) (g_cc m) (g_cc G)
   end.
 
 (* 1-D formula set: face i sits at node fn[i]; cell c has the faces (f1, f2) =
@@ -271,30 +279,30 @@ Definition agree2 (g : grid2) (s : Q) (G : geom) : bool :=
 Record grid1 := { u_nodes : list qvec; u_fn : list nat; u_cells : list (nat * nat);
                   u_first : list (nat * Z) }.
 Definition xface (h : grid1) (f : nat) : qvec := nth (nth f (u_fn h) O) (u_nodes h) qzero.
-Definition agree1 (h : grid1) (G : geom) : bool :=
-  all2 (fun f p => closev p (xface h f)) (seq 0 (length (u_fn h))) (g_fc G)
+Definition agree1 (sl : Q) (h : grid1) (G : geom) : bool :=
+  all2 (fun f p => closev sl p (xface h f)) (seq 0 (length (u_fn h))) (g_fc G)
   && all2 (fun c v => let d := qvsub (xface h (fst c)) (xface h (snd c)) in
-                      close (v * v) (Qred (qdot d d)) && negb (Qle_bool v 0))
+                      close sl (v * v) (Qred (qdot d d)) && negb (Qle_bool v 0))
           (u_cells h) (g_vol G)
-  && all2 (fun c p => closev p (vred (qvscale half_q (qvadd (xface h (fst c)) (xface h (snd c))))))
+  && all2 (fun c p => closev sl p (vred (qvscale half_q (qvadd (xface h (fst c)) (xface h (snd c))))))
           (u_cells h) (g_cc G)
-  && all2 (fun a _ => close a 1) (g_area G) (g_area G)
+  && all2 (fun a _ => close sl a 1) (g_area G) (g_area G)
   && all2 (fun fe n =>
              let f := fst fe in let cs := snd fe in
              let c := nth (fst cs) (u_cells h) (O, O) in
              let dir := qvsub (xface h (fst c)) (xface h (snd c)) in
              let cc := qvscale half_q (qvadd (xface h (fst c)) (xface h (snd c))) in
              let out := Qred (qdot n (qvsub (xface h f) cc)) * inject_Z (snd cs) in
-             close (qdot n n) 1 && closev (qcross n dir) qzero && negb (Qle_bool out 0))
+             close sl (qdot n n) 1 && closev sl (qcross n dir) qzero && negb (Qle_bool out 0))
           (combine (seq 0 (length (u_fn h))) (u_first h)) (g_fn G).
 
 (* 3-D: face normals = sum of the sub-triangle normals (polynomial in the nodes) *)
 Definition q_face_normal3 := face_normal3 Q 0 radd rmul rsub half_q.
-Definition agree3 (nodes : list qvec) (faces : list (list nat)) (G : geom) : bool :=
+Definition agree3 (sl : Q) (nodes : list qvec) (faces : list (list nat)) (G : geom) : bool :=
   all2 (fun ids n =>
           let pts := map (fun i => nth i nodes qzero) ids in
           let loop := combine pts (tl pts ++ firstn 1 pts) in
-          closev n (vred (q_face_normal3 (1 / inject_Z (Z.of_nat (length ids))) loop)))
+          closev sl n (vred (q_face_normal3 (1 / inject_Z (Z.of_nat (length ids))) loop)))
        faces (g_fn G).
 
 (* one case of the tie *)
@@ -302,11 +310,12 @@ Inductive shape := Shape1 (h h' : grid1) | Shape2 (g g' : grid2) (s s' : Q)
                  | Shape3 (faces : list (list nat)) | ShapeNone.
 
 Definition agree (M : qmat) (t : qvec) (N N' : list qvec) (G G' : geom) (sh : shape) : bool :=
-  is_rotation_q M && moved_nodes_ok M t N N' && equivariant_ok M t G G'
+  let sl := slack N N' in
+  is_rotation_q M && moved_nodes_ok sl M t N N' && equivariant_ok sl M t G G'
   && match sh with
-     | Shape1 h h' => agree1 h G && agree1 h' G'
-     | Shape2 g g' s s' => agree2 g s G && agree2 g' s' G'
-     | Shape3 faces => agree3 N faces G && agree3 N' faces G'
+     | Shape1 h h' => agree1 sl h G && agree1 sl h' G'
+     | Shape2 g g' s s' => agree2 sl g s G && agree2 sl g' s' G'
+     | Shape3 faces => agree3 sl N faces G && agree3 sl N' faces G'
      | ShapeNone => true
      end.
 
